@@ -559,9 +559,19 @@ class Engine:
                 return v.length > 0
             return self.branch(v.length > 0)
         if isinstance(v, (SObj, SRef)):
+            # CPython: __bool__ first, else __len__() != 0, else every object is true
             for nm in ("__bool__", "__len__"):
-                if inspect.getattr_static(v.cls, nm, None) is not None:
+                fn = inspect.getattr_static(v.cls, nm, None)
+                if fn is None:
+                    continue
+                if not isinstance(fn, types.FunctionType):
                     raise Unsupported("truthiness via %s" % nm)
+                r = self.call(fn, [v], {})
+                if nm == "__bool__" and not isinstance(r, (bool, SBool)):
+                    raise Unsupported("__bool__ returned a non-bool")
+                if nm == "__len__" and not isinstance(r, (int, SInt)) or isinstance(r, bool) and nm == "__len__":
+                    raise Unsupported("__len__ returned a non-int")
+                return self.truth(r)
             return True
         if isinstance(v, (int, str, bytes, tuple, list, dict, range)):
             return bool(v)
